@@ -1,7 +1,8 @@
 (* C06 -- the built-in Targets behave as a content map plus a reference -> descriptor map.
    Only statements closed by [exact]; the lemmas live in Proofs/Stores.v, the executable
    models (memory store, OCI layout store, abstract specification) in Model/Stores.v. *)
-From Oras Require Import Base.Prelude Generated.GC06 Model.Stores Model.StoresConc Proofs.Stores Proofs.StoresConc.
+From Oras Require Import Base.Prelude Generated.GC06 Model.Stores Model.StoresConc Model.StoresConcOci
+     Proofs.Stores Proofs.StoresConc Proofs.StoresConcOci.
 From Coq Require Import Permutation.
 
 (* For every history, the memory store (cas.Memory + resolver.Memory + graph.Memory)
@@ -149,6 +150,41 @@ Print Assumptions C06_quiescent_serialisable_memory.
 
 Example C06_ex_quiescent : quiescent (mconf_run (mconf_init cx_progs) cx_sched) = true.
 Proof. exact cx_quiescent. Qed.
+
+(* ---- concurrency: OCI layout store ---- *)
+
+(* Atomic steps: stat, rename (replaces an existing blob), graph.index, the two
+   tagResolver.Tag calls of Store.tag, tagResolver.Resolve / Untag; Delete runs only while
+   no other operation is in flight (Store.sync).  Universe: every digest has one
+   descriptor (U) and one byte string (B).  For EVERY schedule that runs all programs to
+   completion there is a sequential order of the same operations, keeping every
+   goroutine's program order, with literally the same content map, the same descriptor
+   under every name, and the same Predecessors answers.  Partial: the resolver's
+   digest-string entries (visible only as media type of Resolve(<digest>) for non-manifest
+   blobs) are not compared. *)
+Theorem C06_quiescent_serialisable_oci_partial :
+  forall (U : N -> gkey), (forall g, k_dig (U g) = g) ->
+  forall (B : N -> blob) (progs : list (list op)) (sched : list nat),
+  Forall (wf_op U B) (concat progs) ->
+  let cf := oconf_run (oconf_init progs) sched in
+  oquiescent cf = true ->
+  exists order : list (nat * op),
+    Permutation (map snd order) (concat progs) /\
+    (forall i, log_of i order = nth i progs []) /\
+    let q := fst (run oci_step oci_init (map snd order)) in
+    o_blobs (oc_store cf) = o_blobs q /\
+    (forall n, get ref_eqb (RName n) (r_index (o_res (oc_store cf))) =
+               get ref_eqb (RName n) (r_index (o_res q))) /\
+    forall n k, In k (map gk (g_predecessors n (o_graph (oc_store cf)))) <->
+                In k (map gk (g_predecessors n (o_graph q))).
+Proof. exact quiescent_serialisable_oci. Qed.
+Print Assumptions C06_quiescent_serialisable_oci_partial.
+
+Example C06_ex_oci_wf : Forall (wf_op ex_U ox_B) (concat ox_progs).
+Proof. exact ox_wf. Qed.
+
+Example C06_ex_oci_quiescent : oquiescent (oconf_run (oconf_init ox_progs) ox_sched) = true.
+Proof. exact ox_quiescent. Qed.
 
 (* ---- file store (names, duplicate-name, fallback CAS; options IgnoreNoName, DisableOverwrite) ---- *)
 
